@@ -1,9 +1,35 @@
-"""C09 -- system-level check (see csys.py)."""
+"""C09 -- service ranges: system check + wiring facts from the Go source (who maps entries at bootstrap, when the service
+ranges are filtered out, who can take a block out of use, and that ReleaseCIDR occupies the service ranges again)."""
+import os
+import shutil
 import csys
+import c16
+import vlib
 
 
 def run(res, tier, seed):
     csys.run(res, tier, seed, "C09")
+    ok, out = c16.translator_build()
+    ok2, out2, dt = c16.run_translator() if ok else (False, out, 0)
+    res.obligation("service-range wiring facts regenerated from /repo's pkg/controller/ipam (gen/Facts_svc.v)", ok and ok2)
+    if not (ok and ok2):
+        res.violation({"property": "C09", "kind": "proof-break", "theorem_or_correspondence": "translator", "detail": (out + str(out2))[-2000:]}, nofail=True)
+        return
+    shutil.copy(os.path.join(vlib.COQ, "Properties", "C09_current.v.tmpl"), os.path.join(c16.GEN, "C09_current.v"))
+    with vlib.Lock("coq.lock"):
+        rc1, o1, _ = vlib.sh("timeout 600 coqc -Q .. NIPAM -R . Gen Facts_svc.v 2>&1", cwd=c16.GEN, timeout=700, check=False)
+        rc2, o2, _ = vlib.sh("timeout 600 coqc -Q .. NIPAM -R . Gen C09_current.v 2>&1", cwd=c16.GEN, timeout=700, check=False) if rc1 == 0 else (1, o1, 0)
+    res.obligation("theorem current_svc_wiring_ok : svc_wiring_ok svc = true (bootstrap mapping only from the constructor and before the "
+                   "filtering; serviceCIDRs written by the constructor only; blocks released only where the model releases; "
+                   "ReleaseCIDR occupies the service ranges again before dropping the association)", rc2 == 0)
+    txt = open(os.path.join(c16.GEN, "Facts_svc.v")).read()
+    res.coverage["svc_wiring_facts"] = [l.strip() for l in txt.splitlines() if l.strip().startswith("sf_")]
+    if rc2 != 0:
+        # the corpus / scenario histories decide whether a failing input exists; the wiring break by itself has none
+        res.violation({"property": "C09", "kind": "static-path",
+                       "theorem_or_correspondence": "gen/C09_current.v: svc_wiring_ok svc = true no longer holds (SvcCheck.v)",
+                       "violation": "the wiring the C09 history theorem and the ghost flag cc_start rest on changed: see the facts",
+                       "facts": res.coverage["svc_wiring_facts"], "detail": (o1 + o2)[-1500:]}, nofail=True)
 
 
 def replay(res, path):
